@@ -556,6 +556,18 @@ func BoolEdges(v ssa.Value) (t []Edge, f []Edge) {
 						rec(ld, neg)
 					}
 				}
+			case *ssa.Phi:
+				// `q := x && other` / `q := x || other` held in a local: q true
+				// implies x true (&&), q false implies x false (||). Only that
+				// informative side is added.
+				if _, isAnd, ok := PhiConjuncts(y); ok && !neg {
+					pt, pf := BoolEdges(y)
+					if isAnd {
+						t = append(t, pt...)
+					} else {
+						f = append(f, pf...)
+					}
+				}
 			}
 		}
 	}
